@@ -9,6 +9,13 @@ G  per batch the harness generates a real Lua echo module (fragments embedded as
    templates, parses the serialised observation and compares every field with TLC's
    expectation; additionally the metamorphic equalities preprocess(t) == expand(t) etc.
    are checked on the real code.
+   Route family: the template holding the #invoke is a page of the page store (PageStore.tla
+   instantiated inside Gen_LuaFrame); TLC enumerates every spelling / redirect by which it can be
+   reached (first-letter case, underscores, explicit / aliased / lower-case namespace prefix,
+   leading colon for a main-namespace page, redirect pages, redirect targets written in another
+   spelling) x depth 1..2 x (called from wikitext | through frame:expandTemplate{title=..}) and
+   gives the title the parent frame must carry: the stored title of the page whose body is
+   expanded.  The harness installs exactly the add_page calls TLC lists (STORE line).
 """
 from __future__ import annotations
 
@@ -32,6 +39,12 @@ local function dump(t)
   table.sort(out)
   return table.concat(out, "\30")
 end
+-- hands everything it was given (except the title) on to frame:expandTemplate
+function p.via(frame)
+  local a = {}
+  for k, v in pairs(frame.args) do if k ~= "t" then a[k] = v end end
+  return frame:expandTemplate{title = frame.args.t, args = a}
+end
 """
 
 FN = r"""
@@ -48,12 +61,38 @@ function p.%(fn)s(frame)
     .. "\29E" .. frame:expandTemplate{title = "T1", args = {%(s1)s, x = %(s2)s}}
     .. "\29F" .. frame:callParserFunction("#if", %(s1)s, %(s2)s, "n")
     .. "\29G" .. frame:callParserFunction("#ifeq", %(s1)s, "", "same", "diff")
+    .. "\29N" .. tostring(frame:getTitle())
     .. "\29"
 end
 """
 
 W1 = "<{{#invoke:{{{m}}}|{{{f}}}|{{{1}}}|x={{{x}}}|2={{{2}}}}}>"
-W2 = "{{W1|{{{1}}}|x={{{x}}}|2={{{2}}}|m={{{m}}}|f={{{f}}}}}"
+W2 = "{{%s|{{{1}}}|x={{{x}}}|2={{{2}}}|m={{{m}}}|f={{{f}}}}}"
+
+TITLE_ATOM = {"SP": " ", "US": "_"}
+
+
+def conc(atoms) -> str:
+    """title atoms of PageStore.tla -> string"""
+    return "".join(TITLE_ATOM.get(a, a) for a in atoms)
+
+
+def written(route) -> str:
+    """the name as the call site writes it"""
+    return (":" if route["colon"] else "") + conc(route["name"])
+
+
+def install_store(ctx, adds, module_src) -> None:
+    """perform the add_page calls of the specification's store, in order"""
+    for a in adds:
+        red = None if list(a["redirect"]) == ["-"] else conc(a["redirect"])
+        if a["body"] == "M":
+            ctx.add_page(conc(a["title"]), a["ns"], body=module_src, model="Scribunto")
+        elif red is not None:
+            ctx.add_page(conc(a["title"]), a["ns"], redirect_to=red)
+        else:
+            assert a["body"] == "W1", a
+            ctx.add_page(conc(a["title"]), a["ns"], body=W1)
 
 
 def key_of(atoms):
@@ -96,17 +135,26 @@ def chunk_fn(chunk):
             for idx, c in chunk:
                 src += FN % {"fn": f"f{idx}", "frag": lua_long(tr.render(c["frag"])), "s1": json.dumps(tr.text(c["s1"])), "s2": json.dumps(tr.text(c["s2"]))}
             src += "return p\n"
-            luastub.add_module(ctx, "M", src)
+            install_store(ctx, _G["adds"], src)
             tr.install(ctx, lib)
-            ctx.add_page("Template:W1", 10, body=W1)
-            ctx.add_page("Template:W2", 10, body=W2)
+            # one forwarding template per route: its body calls the wrapper under that spelling
+            w2 = {}
+            for idx, c in chunk:
+                sp = written(c["route"])
+                if c["depth"] == 2 and sp not in w2:
+                    w2[sp] = f"W2r{len(w2)}"
+                    ctx.add_page("Template:" + w2[sp], 10, body=W2 % sp)
             ctx.db_conn.commit()
             for idx, c in chunk:
                 a1, a2, a3 = tr.render(c["a1"]), tr.render(c["a2"]), tr.render(c["a3"])
+                sp = written(c["route"])
+                outer = sp if c["depth"] == 1 else w2.get(sp)
                 if c["depth"] == 0:
                     page = f"{{{{#invoke:M|f{idx}|{a1}|x={a2}|2={a3}}}}}"
+                elif c["via"]:
+                    page = f"{{{{#invoke:M|via|{a1}|x={a2}|2={a3}|m=M|f=f{idx}|t={outer}}}}}"
                 else:
-                    page = f"{{{{W{c['depth']}|{a1}|x={a2}|2={a3}|m=M|f=f{idx}}}}}"
+                    page = f"{{{{{outer}|{a1}|x={a2}|2={a3}|m=M|f=f{idx}}}}}"
                 ob = {"idx": idx, "page": page}
                 try:
                     ctx.start_page("Pg")
@@ -129,16 +177,20 @@ def chunk_fn(chunk):
 def judge(o: Outcome, c, e, ob):
     o.evaluations += 1
     case = {"page": ob["page"], "fragment": tr.render(c["frag"]), "lua_strings": [tr.text(c["s1"]), tr.text(c["s2"])], "depth": c["depth"]}
+    if c["depth"] > 0:
+        case["wrapper_called_as"] = "{{" + written(c["route"]) + "|...}}"
+        case["through_expandTemplate"] = c["via"]
     if "exc" in ob:
         o.violation({**case, "exception": ob["exc"]}, f"expand() raised {ob['exc']}", cls="exception")
         return
     raw = ob["raw"]
     pre, post = ("<", ">") if c["depth"] > 0 else ("", "")
     parts = raw.split(SEP)
-    if len(parts) != 12 or parts[0] != pre or parts[11] != post:
+    if len(parts) != 13 or parts[0] != pre or parts[12] != post:
         o.violation({**case, "got": raw[:400]}, "the string returned by the module does not replace the #invoke call verbatim", cls="envelope")
         return
-    got = {p[0]: p[1:] for p in parts[1:11]}
+    got = {p[0]: p[1:] for p in parts[1:12]}
+    ptitle = conc(e["ptitle"])
     exp_args = amap(e["args"])
     a1v, a2v = exp_args.get(1), exp_args.get(2)
     pexp = amap(e["pargs"]) if e["hasParent"] else {}
@@ -146,7 +198,7 @@ def judge(o: Outcome, c, e, ob):
         ("frame.args read as ['1'], [1], ['2'], [2], ['1']", got["B"].split(US), [str(a1v), str(a1v), str(a2v), str(a2v), str(a1v)], None),
         ("parent.args read as [1], ['1'], [1]", got["Q"].split(US) if e["hasParent"] else [], [str(pexp.get(1))] * 3 if e["hasParent"] else [], None),
         ("frame.args", parse_dump(got["A"]), exp_args, None),
-        ("parent title", got["T"], e["ptitle"] if e["hasParent"] else US + "nil", None),
+        ("parent title", got["T"], ptitle if e["hasParent"] else US + "nil", None),
         ("parent args", parse_dump(got["P"]), amap(e["pargs"]) if e["hasParent"] else {}, None),
         ("frame:preprocess", got["R"], tr.text(e["pre"]), ob["m_pre"]),
         ("frame:expandTemplate", got["E"], tr.text(e["et"]), ob["m_et"]),
@@ -164,7 +216,31 @@ def judge(o: Outcome, c, e, ob):
             o.violation({**case, "key": k, "returned": v, "length_in_lua": n},
                         f"the value of {k!r} held by the module has {n} bytes, the text it returns ({v!r}) has {len(v.encode('utf-8'))}: Lua saw something else than the expanded argument", cls="lua-length")
             break
+    # frame:getTitle() of the module's own frame: beyond the statement -> drift only
+    if got["N"] != conc(e["ftitle"]):
+        o.note_drift({**case, "what": "frame:getTitle()", "got": got["N"], "specification": conc(e["ftitle"])})
     for what, g, x, meta in checks:
+        if what == "parent title" and e["hasParent"] and g != x:
+            # the statement: the parent frame carries the enclosing template's title.  The enclosing template is
+            # the page whose body holds the #invoke; every spelling of the route denotes that one page
+            sp = written(c["route"])
+            how = f"the call names it {{{{{sp}}}}}"
+            if e["redirect"]:
+                how += (f", a redirect page ({conc(e['firstTitle'])!r} -> {ptitle!r}); the body that is expanded is the target's,"
+                        " so the target is the enclosing template (MediaWiki reports the target's title as well)")
+            elif sp != ptitle:
+                how += ", another spelling of the same page (first-letter case / underscore / namespace prefix)"
+            where = f"wrapper depth {c['depth']}" + (", reached through frame:expandTemplate" if c["via"] else "")
+            if g == US + "nil":
+                why = f"frame:getParent() is nil inside the template {ptitle!r} ({how}; {where})"
+            else:
+                why = (f"frame:getParent():getTitle() is {g!r}, but the enclosing template - the page whose body holds the #invoke - "
+                       f"has the title {ptitle!r}; {how}; {where}")
+            o.violation({**case, "what": what, "got": g, "specification": x, "stored_title_of_enclosing_template": ptitle,
+                         "route_is_redirect": e["redirect"]}, why,
+                        cls="parent title/" + ("redirect" if e["redirect"] else "spelling" if sp != ptitle else "canonical")
+                        + ("/main namespace" if c["route"]["colon"] else "/template namespace"))
+            continue
         if what == "parent args" and e["hasParent"]:
             x = dict(x)
             x["m"] = "M"
@@ -197,18 +273,28 @@ def judge(o: Outcome, c, e, ob):
                         "same_wikitext_expanded_on_page": meta},
                        f"{what} seen by Lua is {g!r}; the specification gives {x!r}" + (f"; the equivalent wikitext expands to {meta!r}" if meta is not None else ""),
                        devs, cls=what + ("/spec" if bad_spec else "/metamorphic"))
-    o.shape((common.json_key(c["a1"]), common.json_key(c["a2"]), c["depth"], common.json_key(c["frag"])))
+    o.shape((common.json_key(c["a1"]), common.json_key(c["a2"]), c["depth"], common.json_key(c["frag"]), written(c["route"]), c["via"]))
 
 
 def run(tier: str) -> int:
     o = Outcome(PID, tier)
-    o.rule = "each (wrapper depth, positional value, named value, fragment, Lua strings) of Gen_LuaFrame is one case; distinct by (values, depth, fragment)"
+    o.rule = ("each (wrapper depth, positional value, named value, fragment, Lua strings) of Gen_LuaFrame is one case of family 'args' "
+              "(wrapper called by its stored name); each (route = spelling / redirect by which the page holding the #invoke is reached, "
+              "depth 1..2, from wikitext | through frame:expandTemplate, value) is one case of family 'route'; "
+              "distinct by (values, depth, fragment, route, via)")
     o.assumptions = ["Lua runs with pure-Lua stand-ins for ustring/libraryUtil", "callParserFunction/expandTemplate receive plain strings",
-                     "the equivalent call of expandTemplate{title,args} is the all-named call {{title|k=v|...}}"]
+                     "the equivalent call of expandTemplate{title,args} is the all-named call {{title|k=v|...}}",
+                     "the enclosing template of an #invoke is the page whose body is expanded (for a redirect: its target), titles as stored by add_page"]
     uni = "T" if tier == "thorough" else "Q"
     r = tlc("Gen_LuaFrame", f"Gen_LuaFrame_{uni}.cfg", workers=1, timeout=3000)
     o.add_tlc(f"Gen_LuaFrame[{uni}]", r)
     cases = r.cases
+    store = r.tagged("STORE")[0]
+    _G["adds"] = store["adds"]
+    o.extra["routes"] = {"reaching_a_wrapper": store["routes"], "going_nowhere_not_run": store["unreachable"],
+                         "route_cases": sum(1 for c in cases if c["case"]["fam"] == "route"),
+                         "laws_checked_by_TLC": ["TitleLaws (code path == reference on every route, supplier is a stored non-redirect page)",
+                                                 "DepthIndependent", "ViaIndependent"]}
     lib = {"T1": [{"w": "plain", "c": [tr.T(["("]), {"k": "p", "name": ["1"], "hasDef": False, "def": []}, tr.T([","]),
                                        {"k": "p", "name": ["x"], "hasDef": True, "def": [tr.T(["d"])]}, tr.T([")"])]}],
            "Sp": [{"w": "plain", "c": [tr.T(["SP", "v", "SP"])]}],
@@ -234,8 +320,13 @@ def replay(path: str) -> int:
 
 def selftest() -> int:
     r = tlc("Gen_LuaFrame", "Gen_LuaFrame_Q.cfg", workers=1)
-    cases = r.cases[:40]
+    _G["adds"] = r.tagged("STORE")[0]["adds"]
+    routed = [c for c in r.cases if c["case"]["fam"] == "route"]
+    cases = r.cases[:40] + routed[:: max(1, len(routed) // 40)]
     cases[3]["exp"]["pre"] = ["CORRUPT"]
+    # a stored title spelt otherwise must be rejected too
+    k = next(i for i, c in enumerate(cases) if c["case"]["fam"] == "route" and c["exp"]["redirect"])
+    cases[k]["exp"]["ptitle"] = cases[k]["exp"]["firstTitle"]
     o = Outcome(PID, "quick")
     _G["lib"] = {"T1": [{"w": "plain", "c": [tr.T(["("]), {"k": "p", "name": ["1"], "hasDef": False, "def": []}, tr.T([","]),
                                               {"k": "p", "name": ["x"], "hasDef": True, "def": [tr.T(["d"])]}, tr.T([")"])]}],
@@ -243,5 +334,7 @@ def selftest() -> int:
                  "((": [{"w": "plain", "c": [tr.T(["{{"])]}], "))": [{"w": "plain", "c": [tr.T(["}}"])]}]}
     for ob in chunk_fn([(i, c["case"]) for i, c in enumerate(cases)]):
         judge(o, cases[ob["idx"]]["case"], cases[ob["idx"]]["exp"], ob)
-    print("violations after corrupting one expectation:", len(o.violations))
-    return 0 if len(o.violations) == 1 else 1
+    print("violations after corrupting two expectations (preprocess text, parent title of a redirect route):", len(o.violations))
+    for v in o.violations:
+        print("  ", str(v.get("why", v))[:200])
+    return 0 if len(o.violations) == 2 else 1
